@@ -60,9 +60,10 @@ def gen_cases(tier, seed):
     reps = 1 if tier == "quick" else 20
     for r in range(reps):
         for algo in LOOP:
-            variants = ["budget", "episodes", "zero", "start_mid"]
+            variants = ["budget", "episodes", "zero", "start_mid", "prefilled"]
             if tier == "quick" and algo in ("mrq", "pets"):
-                variants = ["episodes", "start_mid"] if algo == "mrq" else ["budget"]
+                variants = (["episodes", "start_mid", "prefilled"] if algo == "mrq"
+                            else ["budget"])
             for v in variants:
                 script = make_script(rng)
                 total = int(rng.integers(25, 50))
@@ -83,6 +84,13 @@ def gen_cases(tier, seed):
                             continue
                     else:
                         c["global_step"] = total
+                elif v == "prefilled":
+                    # the buffer handed over already holds transitions collected
+                    # elsewhere; the run itself starts at step 0
+                    if algo not in WARMUP or algo == "pets":
+                        continue
+                    c["prefill"] = int(rng.integers(15, 40))
+                    c["learning_starts"] = int(rng.choice([6, 9, 14]))
                 elif v == "start_mid":
                     if algo not in HAS_START:
                         continue
